@@ -30,6 +30,7 @@ type Commit struct {
 	In, Out interface{} // deep copies
 	At      time.Duration
 	Attempt int
+	FStep   int // scheduler step during which the caller's function produced the committed value
 }
 
 type watcher struct {
@@ -172,9 +173,11 @@ func (c *Client) CAS(ctx context.Context, key string, f func(in interface{}) (ou
 	}
 	var lastIn, lastOut interface{}
 	attempt := 0
+	fStep := 0
 	err = c.st.Inner.CAS(ctx, key, func(in interface{}) (interface{}, bool, error) {
 		attempt++
 		c.Attempts++
+		fStep = s.Steps
 		inCopy := c.st.Clone(in)
 		out, retry, ferr := f(in)
 		lastIn, lastOut = inCopy, nil
@@ -216,7 +219,7 @@ func (c *Client) CAS(ctx context.Context, key string, f func(in interface{}) (ou
 		return nil // f declined
 	}
 	c.Writes++
-	cm := &Commit{Writer: c.Actor, Key: key, In: lastIn, Out: lastOut, At: s.Elapsed(), Attempt: attempt}
+	cm := &Commit{Writer: c.Actor, Key: key, In: lastIn, Out: lastOut, At: s.Elapsed(), Attempt: attempt, FStep: fStep}
 	c.st.mu.Lock()
 	cm.Seq = len(c.st.Commits)
 	c.st.Commits = append(c.st.Commits, cm)
